@@ -10,6 +10,7 @@ import (
 	"unsafe"
 
 	"github.com/philpearl/avro"
+	"github.com/unravelin/null/v5"
 
 	"verif/sim/ref"
 )
@@ -146,6 +147,20 @@ type W4T struct {
 	M map[string]W4In2 `json:"m"`
 }
 
+// W6: the null.* wrappers under every wire type their builders accept
+// (null.Float under float as well as double, null.Int under int as well as long).
+type W6T struct {
+	I  null.Int    `json:"i"`
+	J  null.Int    `json:"j"`
+	F  null.Float  `json:"f"`
+	D  null.Float  `json:"d"`
+	B  null.Bool   `json:"b"`
+	S  null.String `json:"s"`
+	T  null.Time   `json:"t"`
+	PF *null.Float `json:"pf"`
+	Z  int64       `json:"z"`
+}
+
 type W5T struct {
 	A []*int64 `json:"a"`
 	S string   `json:"s"`
@@ -203,6 +218,9 @@ func init() {
 		// allocation, so a single record makes tens of thousands of them
 		{"W5", rec("W5", fld("a", arr(un(P("null"), P("long")))), fld("s", P("string")), fld("b", arr(un(P("null"), inner("InnerB"))))),
 			reflect.TypeFor[W5T]()},
+		{"W6", rec("W6", fld("i", un(P("null"), P("int"))), fld("j", un(P("long"), P("null"))), fld("f", un(P("null"), P("float"))), fld("d", un(P("null"), P("double"))),
+			fld("b", un(P("null"), P("boolean"))), fld("s", un(P("null"), P("string"))), fld("t", un(P("null"), timeStr())), fld("pf", un(P("null"), P("float"))), fld("z", P("long"))),
+			reflect.TypeFor[W6T]()},
 	}
 }
 
@@ -278,7 +296,7 @@ func c06BuildArtifact(pl *C06Plan) (*c06Artifact, error) {
 		a.codec = pl.WCodec
 		a.schemaJSON = w.Schema.JSON()
 		a.sync = syncFromSeed(pl.WSeed)
-		a.hasTime = w.Name == "W3"
+		a.hasTime = w.Name == "W3" || w.Name == "W6"
 		var blocks []ref.BlockSpec
 		left := pl.WN
 		per := max(1, pl.WParts)
@@ -614,7 +632,7 @@ func (c06Prop) Generate(seed uint64, idx int, tier string) *Plan {
 		pl.File = fs
 	} else {
 		pl.Src = "wire"
-		pl.Wire = r.PickInt([]int{0, 1, 1, 1, 2, 2, 2, 3, 3, 3, 4, 4, 5}) // W0 (zero-width items, known finding D11) less often
+		pl.Wire = r.PickInt([]int{0, 1, 1, 1, 2, 2, 2, 3, 3, 3, 4, 4, 5, 6, 6}) // W0 (zero-width items, known finding D11) less often
 		pl.WSeed = r.Uint64()
 		pl.WN = r.Range(1, 6)
 		pl.WCodec = r.Pick([]string{"null", "null", "null", "deflate", "snappy", "none"})
@@ -955,7 +973,12 @@ func c06EnumCases(a *c06Artifact, pl *C06Plan) []C06Case {
 	return cases
 }
 
-func (c06Prop) CPUBudget() time.Duration { return 8 * time.Second }
+func (c06Prop) CPUBudget() time.Duration {
+	if os.Getenv("VERIF_TIER") == "quick" {
+		return 5 * time.Second // typical case: microseconds to milliseconds
+	}
+	return 8 * time.Second
+}
 
 // zeroWidthPossible reports whether items that occupy no bytes on the wire can
 // occur when case k of the plan is read: the artifact's schema has arrays of
